@@ -126,27 +126,51 @@ Proof.
   intros H. rewrite N.pow_add_r, <- !N.div_div by (apply N.pow_nonzero; discriminate). rewrite H. reflexivity.
 Qed.
 
+(* the subnets in force of DHCP's configuration are those of its own parameters (built by New, or kept from a lease
+   file that passed configChanged): DHCP's [sub_changed] does not fire *)
+Definition cfg_consistent (c : D.cfg) : Prop := D.sub_changed (D.wanted c) (D.c_sub c) = false.
+
+Lemma consistent_facts c : cfg_consistent c ->
+  D.f_bits1 (D.c_sub c) = D.c_homebits c /\ D.f_bits2 (D.c_sub c) = D.c_nfbits c
+  /\ D.f_addr1 (D.c_sub c) / D.psize (D.c_homebits c) = D.c_homeip c / D.psize (D.c_homebits c)
+  /\ D.f_addr2 (D.c_sub c) / D.psize (D.c_nfbits c) = D.c_nfip c / D.psize (D.c_nfbits c).
+Proof.
+  unfold cfg_consistent, D.sub_changed. intros H. apply negb_false_iff in H.
+  repeat (apply andb_true_iff in H; destruct H as [H ?]).
+  repeat match goal with E : (_ =? _) = true |- _ => apply N.eqb_eq in E end.
+  simpl in *.
+  assert (B1 : D.f_bits1 (D.c_sub c) = D.c_homebits c) by congruence.
+  assert (B2 : D.f_bits2 (D.c_sub c) = D.c_nfbits c) by congruence.
+  repeat split; auto.
+  - rewrite <- (pnet_div (D.f_addr1 (D.c_sub c))), <- (pnet_div (D.c_homeip c)). rewrite <- B1 at 1. congruence.
+  - rewrite <- (pnet_div (D.f_addr2 (D.c_sub c))), <- (pnet_div (D.c_nfip c)). rewrite <- B2 at 1. congruence.
+Qed.
+
 Lemma in_home c b x :
+  cfg_consistent c ->
   nf_inside c -> D.c_nfbits c <= 32 ->
   D.c_nfip c / D.psize (D.c_homebits c) = D.c_homeip c / D.psize (D.c_homebits c) ->
   DI.in_pool c b x ->
   x / D.psize (D.c_homebits c) = D.c_homeip c / D.psize (D.c_homebits c).
 Proof.
-  intros Hnf Hb Hc Hp. apply DI.in_pool_contains in Hp.
+  intros Hcons Hnf Hb Hc Hp. destruct (consistent_facts c Hcons) as (B1 & B2 & A1 & A2).
+  apply DI.in_pool_contains in Hp.
   unfold D.n_contains, D.pcontains in Hp. apply N.eqb_eq in Hp.
-  destruct b; unfold D.n_lan, D.n_bits in Hp; rewrite pnet_div in Hp; [|exact Hp].
-  rewrite <- Hc.
-  assert (E : 32 - D.c_homebits c = (32 - D.c_nfbits c) + (D.c_nfbits c - D.c_homebits c))
-    by (clear - Hnf Hb; unfold nf_inside in Hnf; lia).
-  unfold D.psize in *. rewrite E. apply div_pow_coarser. exact Hp.
+  destruct b; unfold D.n_lan, D.n_bits in Hp; rewrite pnet_div in Hp.
+  - rewrite B2, A2 in Hp. rewrite <- Hc.
+    assert (E : 32 - D.c_homebits c = (32 - D.c_nfbits c) + (D.c_nfbits c - D.c_homebits c))
+      by (clear - Hnf Hb; unfold nf_inside in Hnf; lia).
+    unfold D.psize in *. rewrite E. apply div_pow_coarser. exact Hp.
+  - rewrite B1, A1 in Hp. exact Hp.
 Qed.
 
 Lemma persistable_reachable c sD cap i s :
+  cfg_consistent c ->
   DI.Inv c sD -> table_J (D.tbl sD) ->
   L.new (abs_cfg c) cap i = Ok s ->
   LK.persistable (L.d_n1 s) (abs_table (D.tbl sD)) = true.
 Proof.
-  intros HI HJ Hnew.
+  intros Hcons HI HJ Hnew.
   destruct (LR.new_stable _ _ _ _ Hnew) as (Hok & _ & _ & C1 & _).
   (* the handler's net1 is the masked home LAN *)
   unfold L.configChanged in C1. repeat (apply orb_false_iff in C1; destruct C1 as [C1 ?]).
@@ -164,7 +188,7 @@ Proof.
   destruct (DI.inv_leases c sD HI l Hl) as [_ Li]. destruct (Li x Eip) as [[Hp _] _].
   simpl. rewrite <- C1, LR.contains_pmasked. unfold contains. simpl. rewrite Hhb. simpl.
   assert (Hx : x / 2 ^ (32 - D.c_homebits c) = D.c_homeip c / 2 ^ (32 - D.c_homebits c)).
-  { apply (in_home c (D.l_net2 l) x Hnf); [lia|symmetry; exact Hc|exact Hp]. }
+  { apply (in_home c (D.l_net2 l) x Hcons Hnf); [lia|symmetry; exact Hc|exact Hp]. }
   rewrite Hx, N.eqb_refl. simpl.
   destruct (dec (D.l_cid l)) eqn:Ed; [|reflexivity].
   exfalso. apply J2. apply dec_empty; auto.
@@ -202,7 +226,7 @@ Section Oracle.
   Lemma restart_all_histories :
     LR.yaml_roundtrip text print read ->
     forall c h cap0 i0 s cap ord,
-      hist_wf h ->
+      hist_wf h -> cfg_consistent c ->
       L.new (abs_cfg c) cap0 i0 = Ok s ->
       let t := abs_table (D.tbl (fst (D.run c (D.init c) h))) in
       Permutation ord t ->
@@ -210,9 +234,9 @@ Section Oracle.
                  /\ L.d_n1 s' = L.d_n1 s /\ L.d_n2 s' = L.d_n2 s
                  /\ Permutation (L.bindings (L.d_table s')) (L.acked_bindings t).
   Proof.
-    intros Hy c h cap0 i0 s cap ord Hw Hnew t Hp.
+    intros Hy c h cap0 i0 s cap ord Hw Hcons Hnew t Hp.
     destruct (reachable_facts c h Hw) as (HI & HJ & Hnd).
-    pose proof (persistable_reachable c _ cap0 i0 s HI HJ Hnew) as Hper.
+    pose proof (persistable_reachable c _ cap0 i0 s Hcons HI HJ Hnew) as Hper.
     destruct (LR.restart_partial text print read Hy (abs_cfg c) cap0 i0 s cap t ord Hnew Hper Hnd Hp)
       as (s' & E & E1 & E2 & _ & E4).
     exists s'. auto.
@@ -320,7 +344,7 @@ Proof. intros Hk. apply current_run; auto. intros l []. Qed.
    holds the declined binding *)
 (* home 192.168.0.0/28, host .9, router .1, netfilter .8/29, primary mode; client 02:00:00:00:00:01 *)
 Definition gcfg : D.cfg :=
-  D.mkCfg 1 3232235529 366503875925 3232235521 439804651110 3232235520 28 3232235529 29 134743044.
+  D.fresh_cfg 1 3232235529 366503875925 3232235521 439804651110 3232235520 28 3232235529 29 134743044.
 Definition gc1 : N := 2199023255553.
 Definition gmsg (ch xid : N) (req sid : option N) : D.dmsg := D.mkMsg ch xid 0 None req sid false 0 [].
 Definition gus : option N := Some 3232235529.
@@ -358,13 +382,13 @@ Definition h_live : list D.op :=
    D.OCapture gc2; D.ODiscover 0 (gmsg gc2 2 (Some 3232235532) None); D.ORequest 0 (gmsg gc2 2 (Some 3232235532) gus)].
 
 Example glue_nonvacuous :
-  hist_wf (DSh.with_ch0 h_live) /\ nf_inside gcfg
+  hist_wf (DSh.with_ch0 h_live) /\ cfg_consistent gcfg
   /\ (exists s, L.new (abs_cfg gcfg) (fun _ => false) L.ReadErr = Ok s)
   /\ List.length (L.acked_bindings (abs_table (D.tbl (fst (D.run gcfg (D.init gcfg) (DSh.with_ch0 h_live)))))) = 2%nat.
 Proof.
   split.
   - unfold hist_wf, h_live. simpl. repeat constructor; unfold op_wf; simpl; try exact I; vm_compute; reflexivity.
-  - split; [unfold nf_inside; vm_compute; discriminate|].
+  - split; [vm_compute; reflexivity|].
     split; [eexists; vm_compute; reflexivity|vm_compute; reflexivity].
 Qed.
 
